@@ -390,6 +390,7 @@ where
         let deadline = Instant::now() + Duration::from_secs(90);
         let mut last_events = o.events.load(Ordering::SeqCst);
         let mut quiet = 0u32;
+        let mut cpu_prev2: Option<Vec<(u64, u64)>> = None;
         loop {
             let snap = o.snapshot();
             let live: Vec<_> = snap
@@ -400,10 +401,11 @@ where
                 break;
             }
             let ev = o.events.load(Ordering::SeqCst);
-            if ev == last_events && all_parked(&live) {
+            if ev == last_events && all_parked(&live) && proc_quiescent(&mut cpu_prev2) {
                 quiet += 1;
             } else {
                 quiet = 0;
+                cpu_prev2 = None;
                 last_events = ev;
             }
             if quiet >= 8 {
